@@ -22,7 +22,7 @@ def run_reload_sched(verdict, tier, seed, scratch, prefixes, n_quick=120, n_thor
             verdict.machinery.append("reload scenario %s did not run: %s" % (r.get("seed"), r.get("error")))
             continue
         v = r.get("verdict")
-        lines += len(r["trace"])
+        lines += r.get("nlines", len(r["trace"]))
         if v is None:
             verdict.machinery.append("no TLC verdict for reload scenario %s" % r.get("seed"))
             continue
@@ -40,11 +40,11 @@ def run_reload_sched(verdict, tier, seed, scratch, prefixes, n_quick=120, n_thor
         verdict.machinery.append("TraceMon (reload schedules): " + st["errors"][0][-600:])
     # strict pass
     cn = conf_quick if quick else conf_thorough
-    cruns = batch.run_many([("conf_reload", seed * 1000003 + 500000 + i) for i in range(cn)])
-    ctr = [r["trace"] for r in cruns if r.get("trace") is not None]
-    res, cst = tlcrun.conform_traces(ctr, scratch)
+    cpairs, cst = batch.conform([("conf_reload", seed * 1000003 + 500000 + i) for i in range(cn)], scratch)
+    ctr = [r for r, c in cpairs]
+    res = [c for r, c in cpairs]
     full = len([c for c in res if c is not None and c[0] >= c[1]])
-    for r, c in zip([r for r in cruns if r.get("trace") is not None], res):
+    for r, c in cpairs:
         if c is not None and c[0] < c[1]:
             verdict.notes.append("DIVERGENCE: conf_reload/%s leaves Core after line %d of %d" % (r.get("seed"), c[0], c[1]))
     if cst.get("errors"):
